@@ -91,6 +91,16 @@ Section ElemProofs.
   Lemma unit_comm (x : K) : x * x^* = 1 -> x^* * x = 1.
   Proof. intros H. rewrite <- H. ring. Qed.
 
+  (** ---- hypotheses on atoms, bundled per atom family.  They are the algebraic content of
+           "c = cos x, s = sin x", "r = sqrt 2, h = 1/r", "x = exp(i y)", "t = |v|, it = 1/t"
+           (ElemReal proves them for the real functions). *)
+  Definition cs_ok (c s : K) : Prop := c^* = c /\ s^* = s /\ c * c + s * s = 1.
+  Definition h_ok (r h : K) : Prop := r^* = r /\ h^* = h /\ r * r = 1 + 1 /\ h * r = 1.
+  Definition unit_ok (x : K) : Prop := x * x^* = 1.
+  Definition nrm_ok (v0 v1 v2 t it : K) : Prop :=
+    v0^* = v0 /\ v1^* = v1 /\ v2^* = v2 /\ t^* = t /\ it^* = it /\
+    t * t = v0 * v0 + v1 * v1 + v2 * v2 /\ it * t = 1.
+
   (** ---- scalar multiples of the identity, any number of wires (PhaseFactorGate) *)
   Lemma mscid_mmul n (a b : K) : meq n (mmul n (mscid a) (mscid b)) (mscid (a * b)).
   Proof.
@@ -130,3 +140,59 @@ Section ElemProofs.
   Lemma unitary_adj_inverse n (U : BMx K) : unitary n U -> meq n (mmul n (madj U) U) mid.
   Proof. intros [_ H]. exact H. Qed.
 End ElemProofs.
+
+(** ---- particles: everything depends on the attribute environment only extensionally *)
+Lemma eval_parg_ext (e e' : penv) q : (forall a, e a = e' a) -> eval_parg e q = eval_parg e' q.
+Proof.
+  intros H. destruct q as [a| | |l]; cbn; try reflexivity; [apply H|].
+  f_equal. induction l as [|a l IH]; cbn; [reflexivity|]. rewrite H, IH. reflexivity.
+Qed.
+
+Lemma forallb_truthy_ext (e e' : penv) g : (forall a, e a = e' a) ->
+  forallb (fun a => truthy (e a)) g = forallb (fun a => truthy (e' a)) g.
+Proof. intros H. induction g as [|a g IH]; cbn; [reflexivity|]. rewrite H, IH. reflexivity. Qed.
+
+Lemma eval_pform_ext f (e e' : penv) : (forall a, e a = e' a) -> eval_pform f e = eval_pform f e'.
+Proof.
+  intros H. destruct f as [g els|a]; cbn.
+  - rewrite (forallb_truthy_ext e e' g H). destruct (forallb _ g); [|reflexivity].
+    induction els as [|a els IH]; cbn; [reflexivity|]. rewrite H, IH. reflexivity.
+  - rewrite H. reflexivity.
+Qed.
+
+Lemma inv_env_ext f (e e' : penv) : (forall a, e a = e' a) -> forall a, inv_env f e a = inv_env f e' a.
+Proof.
+  intros H a. destruct f as [|c m nw attrs on]; cbn; [apply H|].
+  destruct on as [[g sets]|].
+  - rewrite (forallb_truthy_ext e e' g H). destruct (forallb _ g).
+    + destruct (assoc a sets); [apply eval_parg_ext; exact H|].
+      destruct (assoc a attrs); [apply eval_parg_ext; exact H|reflexivity].
+    + destruct (assoc a attrs); [apply eval_parg_ext; exact H|reflexivity].
+  - destruct (assoc a attrs); [apply eval_parg_ext; exact H|reflexivity].
+Qed.
+
+Lemma inv_particles_ext db c (e e' : penv) : (forall a, e a = e' a) ->
+  inv_particles db c e = inv_particles db c e'.
+Proof. intros H. unfold inv_particles. apply eval_pform_ext. apply inv_env_ext. exact H. Qed.
+
+(** an environment over the four attribute slots the translator uses *)
+Definition env4 (v0 v1 v2 v3 : aval) (rest : penv) : penv :=
+  fun a => match a with
+           | 0 => v0 | 1 => v1 | 2 => v2 | 3 => v3
+           | Datatypes.S (Datatypes.S (Datatypes.S (Datatypes.S _))) => rest a
+           end.
+Lemma env4_eta (e : penv) : forall a, e a = env4 (e 0) (e 1) (e 2) (e 3) e a.
+Proof. intros [|[|[|[|a]]]]; reflexivity. Qed.
+
+(** destructors: put the conjugation facts and the monomial side equation into the context *)
+Ltac cs_hyps H M :=
+  let Hc := fresh "Hc" in let Hs := fresh "Hs" in let H1 := fresh "H1" in
+  destruct H as (Hc & Hs & H1); pose proof (cs_mono _ _ H1) as M.
+Ltac h_hyps H M :=
+  let Hr := fresh "Hr" in let Hh := fresh "Hh" in let H1 := fresh "H1" in let H2 := fresh "H2" in
+  destruct H as (Hr & Hh & H1 & H2); pose proof (h_mono _ _ H1 H2) as M.
+Ltac nrm_hyps H M :=
+  let H0 := fresh "Hv" in let H1 := fresh "Hv" in let H2 := fresh "Hv" in
+  let Ht := fresh "Ht" in let Hi := fresh "Hi" in let N1 := fresh "N" in let N2 := fresh "N" in
+  destruct H as (H0 & H1 & H2 & Ht & Hi & N1 & N2); pose proof (n_mono _ _ _ _ _ N1 N2) as M.
+
